@@ -7,31 +7,41 @@ from harness.common import cN, cnat, cbool, clist, cpair, coq_failing, Interner
 from harness import toolseam
 
 IMPORTS = "Model.Tools Check.C20"
-PER_VM_TOOLS = ["check", "get", "set", "unset", "push", "pop", "clean"]
+PER_VM_TOOLS = ["check", "get", "set", "unset", "push", "pop", "clean", "collect", "create"]
 PER_WORKER_TOOLS = ["boot", "shutdown"]
-ACTION = {"clean": "unset"}
+ACTION = {"clean": "unset", "collect": "get", "create": "set"}
 
 
-def impl_chain(outs):
-    """Manu.run with stub steps: returns (call order, return code)"""
+def impl_chain(outs, names=None):
+    """Manu.run with stub steps: returns (call order, return code). `names[k]` is the step name used at position k of
+    the chain (default: all different); a name may occur several times - each call of it takes the next outcome"""
     from avocado_i2n.plugins import manu
     order = []
+    names = names or list(range(len(outs)))
+    positions = {}
+    for k, nm in enumerate(names):
+        positions.setdefault(nm, []).append(k)
 
     class Steps:
         @staticmethod
         def load_addons_tools():
             pass
 
-    def make(k, out):
+    def make(nm):
+        calls = {"n": 0}
+
         def step(config, tag=""):
+            ks = positions[nm]
+            k = ks[min(calls["n"], len(ks) - 1)]
+            calls["n"] += 1
             order.append(k)
-            if out == "raise":
+            if outs[k] == "raise":
                 raise RuntimeError(f"step {k} exploded")
-            return out
+            return outs[k]
         return step
-    for k, o in enumerate(outs):
-        setattr(Steps, f"s{k}", staticmethod(make(k, o)))
-    config = {"i2n.manu.params": ["setup=" + ",".join(f"s{k}" for k in range(len(outs)))] if outs else ["setup="]}
+    for nm in positions:
+        setattr(Steps, f"s{nm}", staticmethod(make(nm)))
+    config = {"i2n.manu.params": ["setup=" + ",".join(f"s{nm}" for nm in names)] if outs else ["setup="]}
     with mock.patch("avocado_i2n.plugins.manu.intertest", Steps), mock.patch("avocado_i2n.plugins.manu.LOG_UI", mock.MagicMock()):
         code = manu.Manu().run(config)
     return order, code
@@ -47,13 +57,13 @@ def out_term(o):
 
 USER_PARAMS = {"unset": [{"unset_mode": "fa"}, {"unset_mode": "ra"}], "get": [{"get_mode": "ia"}, {"get_mode": "ra"}],
                "set": [{"set_mode": "fa"}, {"set_mode": "af"}], "check": [{"check_mode": "rr"}], "push": [{"push_mode": "ff"}],
-               "pop": [{"pop_mode": "ra"}], "clean": [{"custom_flag": "on"}], "boot": [{"custom_flag": "on"}], "shutdown": [{"custom_flag": "on"}]}
+               "pop": [{"pop_mode": "ra"}], "clean": [{"custom_flag": "on"}], "collect": [{"custom_flag": "on"}], "create": [{"custom_flag": "on"}], "boot": [{"custom_flag": "on"}], "shutdown": [{"custom_flag": "on"}]}
 
 
-def impl_tool(tool, vm_strs, nets, rng, extra=None):
+def impl_tool(tool, vm_strs, nets, rng, extra=None, failing=False):
     from avocado_i2n import intertest_setup
     config = toolseam.base_config(vm_strs, nets, extra=extra)
-    with toolseam.Recorder(rng) as rec:
+    with toolseam.Recorder(rng, status_of=(lambda node: "FAIL") if failing else None) as rec:
         try:
             ret = getattr(intertest_setup, tool)(config, tag="0m0")
         except Exception as e:
@@ -73,8 +83,21 @@ def run(ctx, replay=None):
             chains += [list(c) for c in itertools.product(outs_pool, repeat=n)]
         for _ in range(60 if ctx.thorough else 20):
             chains.append([rng.choice(outs_pool + [None, 0, 0]) for _ in range(rng.randint(4, 9))])
+    names_of = {}
+    if not replay:
+        # chains that use a step more than once (boot,check,shutdown,pop,boot)
+        for _ in range(40 if ctx.thorough else 12):
+            n = rng.randint(2, 7)
+            c = [rng.choice(outs_pool + [None, 0, 0]) for _ in range(n)]
+            nm = [rng.randrange(max(1, n - 1 - rng.randrange(2))) for _ in range(n)]
+            names_of[len(chains)] = nm
+            chains.append(c)
+        names_of[len(chains)] = [0, 1, 0]
+        chains.append([0, 0, 0])
+    elif replay and "outs" in replay["data"] and replay["data"].get("names"):
+        names_of[0] = replay["data"]["names"]
     if chains:
-        results = [impl_chain(c) for c in chains]
+        results = [impl_chain(c, names_of.get(k)) for k, c in enumerate(chains)]
         terms = [cpair(clist([out_term(o) for o in c]), cpair(clist([cnat(k) for k in order]), cN(code)))
                  for c, (order, code) in zip(chains, results)]
         res = coq_failing(ctx, IMPORTS, "chain_case", terms, ["chain_corr"], shard=300, tag="chain")
@@ -85,7 +108,7 @@ def run(ctx, replay=None):
             broken = order != list(range(len(chains[k]))) or (code == 1) != any(o not in (None, 0) for o in chains[k])
             ctx.fail("C20:chain:" + ("order-or-code" if broken else "correspondence"),
                      "Manu.run: " + ("steps skipped / reordered or wrong return code" if broken else "differs from Model/Tools.v"),
-                     {"outs": chains[k], "impl": [order, code], "obligation": "correspondence:Manu.run-chain"}, broken)
+                     {"outs": chains[k], "names": names_of.get(k), "impl": [order, code], "obligation": "correspondence:Manu.run-chain"}, broken)
         ctx.count(len(chains), sum(1 for c in chains if any(o not in (None, 0) for o in c[:-1]) and len(c) > 1))
         ctx.sample({"outs": chains[-1], "impl": results[-1]})
     # ---- the tools
@@ -107,9 +130,15 @@ def run(ctx, replay=None):
     terms, obs_all = [], []
     for tool, sel, nets in runs:
         extra = rng.choice(USER_PARAMS[tool]) if rng.random() < 0.6 else None
-        ret, calls = impl_tool(tool, {v: all_vms[v] for v in sel}, nets, rng, extra)
+        failing = rng.random() < 0.35
+        ret, calls = impl_tool(tool, {v: all_vms[v] for v in sel}, nets, rng, extra, failing)
         per_vm = tool in PER_VM_TOOLS
         obs, wrong = [], []
+        # a step whose tests fail must report failure to the chain (Manu.run counts anything but None / 0)
+        if failing and any(c[0] == "run" for c in calls) and ret in (0, None):
+            wrong.append(f"every test of the step failed but the step returned {ret!r}")
+        if not failing and ret not in (0, None):
+            wrong.append(f"all tests passed but the step returned {ret!r}")
         for c in calls:
             if c[0] != "run":
                 continue
@@ -140,7 +169,7 @@ def run(ctx, replay=None):
         obs_all.append((ret, obs, wrong))
     if runs:
         res = coq_failing(ctx, IMPORTS, "star_case", terms, ["star_ok"], shard=100, tag="star")
-        bad = set(res["star_ok"]) | {k for k, o in enumerate(obs_all) if o[2] or o[0] not in (0, None)}
+        bad = set(res["star_ok"]) | {k for k, o in enumerate(obs_all) if o[2]}
         ctx.obligation("monitor:once-per-selected-vm-and-worker", "monitor", not bad, f"{len(bad)} of {len(runs)} tool runs violate the rule")
         for k in sorted(bad)[:2]:
             ctx.fail(f"C20:tool:{runs[k][0]}", f"{runs[k][0]}: not exactly one execution per selected vm and compatible worker, or wrong parameters",
